@@ -1,18 +1,204 @@
 import GbVerif.Model.Core
 import GbVerif.Spec.Interrupt
+import GbVerif.Proofs.CoreIrq
 /-!
 C07 — interrupt dispatch follows priority, masking and master-enable rules.
+
+`dispatch_spec`: on every well-formed state the model of `Core::handle_interrupt` *is* the dispatch spec
+(`InterruptSpec.dispatch`, written from the property text, IF/IE read and the return address pushed through the bus).
+The clauses of the property are then stated outright about the model (`handleInterrupt`), each with a concrete state.
+
+Well-formed (`WFc`): IF and IE are five-bit (every bus write keeps them so: `write_keeps_wf`), the upper IE bits are
+stored apart, SP and PC are 16-bit, the bus buffers have the sizes `MemoryAreas::with_rom_file` gives them.
+`activeInterrupts b` is IF ∧ IE exactly as the guest reads them at 0xFF0F / 0xFFFF (`pending_is_guest_view`).
 -/
 namespace GbVerif.C07
-open GbVerif.Core
+open GbVerif.Core GbVerif.CoreProofs
+
+/-- the statement of C07: the model of `Core::handle_interrupt` equals the dispatch spec on every well-formed state -/
+theorem dispatch_spec (c : State) (h : WFc c) : handleInterrupt c = InterruptSpec.dispatch c :=
+  CoreProofs.dispatch_spec c h
+
+/-- IF ∧ IE of the code (`get_active_interrupts`) is what the guest reads: (read 0xFF0F ∧ read 0xFFFF) mod 32 -/
+theorem pending_is_guest_view (c : State) (h : WFc c) : InterruptSpec.pending c.bus = .ok (activeInterrupts c.bus) :=
+  pending_eq c.bus h.io
+
+/-- well-formedness is an invariant of bus writes (TAC/STAT/LYC writes OR in bit 2 or 1, IF/IE writes mask to five bits) -/
+theorem write_keeps_wf (c : State) (h : WFc c) (a v : Nat) (ha : a < 65536) (b' : Bus.State) (hw : Bus.write c.bus a v = .ok b') :
+    WFc { c with bus := b' } :=
+  ⟨write_inv h.bus h.io ha hw, BusProofs.wf_write h.bus hw, h.sp, h.ip⟩
 
 /-- nothing requested-and-enabled: `handle_interrupt` is the identity, whatever the master enable and run state -/
-theorem idle_identity (c : State) (h : activeInterrupts c.bus = 0) : handleInterrupt c = .ok c := by
-  simp [handleInterrupt, h]
+theorem idle_identity (c : State) (h : activeInterrupts c.bus = 0) : handleInterrupt c = .ok c :=
+  handleInterrupt_idle c h
 
 /-- master enable not on: only the run state changes (a halted or stopped CPU resumes); IF, IE, PC, SP, memory untouched -/
 theorem masked_only_wakes (c : State) (h : activeInterrupts c.bus ≠ 0) (hi : c.ime ≠ .Enabled) :
-    handleInterrupt c = .ok { c with run := .Run } := by
-  simp [handleInterrupt, h, hi]
+    handleInterrupt c = .ok { c with run := .Run } :=
+  handleInterrupt_masked c h hi
+
+/-- `handle_interrupt` never panics from a well-formed state, and leaves a well-formed state -/
+theorem total (c : State) (h : WFc c) : ∃ c', handleInterrupt c = .ok c' ∧ WFc c' := by
+  by_cases h0 : activeInterrupts c.bus = 0
+  · exact ⟨c, handleInterrupt_idle c h0, h⟩
+  by_cases hi : c.ime = .Enabled
+  · obtain ⟨b1, b2, _, _, i1, i2, w2, e⟩ := handleInterrupt_taken c h h0 hi
+    exact ⟨_, e, wfc_dispatched c b1 b2 i2 w2 _ (Nat.mod_lt _ (by omega)) (and_lt32 i1.ifl)⟩
+  · exact ⟨_, handleInterrupt_masked c h0 hi, ⟨h.io, h.bus, h.sp, h.ip⟩⟩
+
+/-- "Whenever an interrupt is both requested in IF and enabled in IE, a halted or stopped CPU resumes" — and only then:
+the run state afterwards is Run iff it was Run before or IF ∧ IE ≠ 0, whatever the master enable -/
+theorem wake_iff (c c' : State) (h : WFc c) (hc : handleInterrupt c = .ok c') :
+    c'.run = (if activeInterrupts c.bus ≠ 0 then .Run else c.run) := by
+  by_cases h0 : activeInterrupts c.bus = 0
+  · have hc := ok_inj (handleInterrupt_idle c h0) hc; subst hc; simp [h0]
+  by_cases hi : c.ime = .Enabled
+  · obtain ⟨b1, b2, _, _, _, _, _, e⟩ := handleInterrupt_taken c h h0 hi
+    have hc := ok_inj (e) hc; subst hc; simp [h0, dispatched]
+  · have hc := ok_inj (handleInterrupt_masked c h0 hi) hc; subst hc; simp [h0]
+
+/-- a dispatch happened between `c` and `c'`: master enable cleared, two bytes pushed (SP − 2), five machine cycles -/
+def Dispatched (c c' : State) : Prop :=
+  c'.ime = .Disabled ∧ c'.regs.sp = (c.regs.sp + 65534) % 65536 ∧ c'.regs.cycles = c.regs.cycles + 5 ∧ c'.charged = c.charged + 5
+
+/-- nothing but (possibly) the run state changed -/
+def Untouched (c c' : State) : Prop :=
+  c'.regs = c.regs ∧ c'.bus = c.bus ∧ c'.ime = c.ime ∧ c'.charged = c.charged
+
+/-- "If and only if the master enable is on, the CPU also …": with a request pending, a dispatch happens exactly when
+IME = Enabled; with IME off or only scheduled (EI pending) nothing but the run state changes -/
+theorem dispatch_iff_ime (c c' : State) (h : WFc c) (hp : activeInterrupts c.bus ≠ 0) (hc : handleInterrupt c = .ok c') :
+    (c.ime = .Enabled → Dispatched c c') ∧ (c.ime ≠ .Enabled → Untouched c c') ∧ (Dispatched c c' ↔ c.ime = .Enabled) := by
+  by_cases hi : c.ime = .Enabled
+  · obtain ⟨b1, b2, _, _, _, _, _, e⟩ := handleInterrupt_taken c h hp hi
+    have hc := ok_inj (e) hc; subst hc
+    have d : Dispatched c (dispatched c b1 b2 ((c.regs.sp + 65534) % 65536)) := ⟨rfl, rfl, rfl, rfl⟩
+    exact ⟨fun _ => d, fun n => absurd hi n, fun _ => hi, fun _ => d⟩
+  · have hc := ok_inj (handleInterrupt_masked c hp hi) hc; subst hc
+    refine ⟨fun e => absurd e hi, fun _ => ⟨rfl, rfl, rfl, rfl⟩, fun d => ?_, fun e => absurd e hi⟩
+    have := d.2.2.1; simp at this
+
+/-- the two pushes of a dispatch, in the order the bus sees them: PC high byte at SP−1 first, then PC low byte at SP−2;
+the final bus is the bus after the second push with (at most) one IF bit cleared -/
+theorem high_byte_first (c c' : State) (h : WFc c) (hp : activeInterrupts c.bus ≠ 0) (hi : c.ime = .Enabled)
+    (hc : handleInterrupt c = .ok c') :
+    ∃ b1 b2, Bus.write c.bus ((c.regs.sp + 65535) % 65536) (c.regs.ip / 256) = .ok b1 ∧
+             Bus.write b1 ((c.regs.sp + 65534) % 65536) (c.regs.ip % 256) = .ok b2 ∧
+             c'.bus = { b2 with io := { b2.io with ifl := c'.bus.io.ifl } } := by
+  obtain ⟨b1, b2, w1, w2, _, _, _, e⟩ := handleInterrupt_taken c h hp hi
+  have hc := ok_inj (e) hc; subst hc
+  exact ⟨b1, b2, w1, w2, rfl⟩
+
+/-- priority: the source served is the lowest set bit `i` of IF ∧ IE *sampled after the high-byte push*
+(0 VBlank, 1 STAT, 2 Timer, 3 Serial, 4 Joypad); PC becomes its vector 0x40 + 8·i -/
+theorem priority_order (c c' : State) (h : WFc c) (hp : activeInterrupts c.bus ≠ 0) (hi : c.ime = .Enabled)
+    (hc : handleInterrupt c = .ok c') (b1 : Bus.State)
+    (hb1 : Bus.write c.bus ((c.regs.sp + 65535) % 65536) (c.regs.ip / 256) = .ok b1) (hp1 : activeInterrupts b1 ≠ 0) :
+    ∃ i, i < 5 ∧ activeInterrupts b1 / 2^i % 2 = 1 ∧ (∀ j, j < i → activeInterrupts b1 / 2^j % 2 = 0) ∧
+      c'.regs.ip = 0x40 + 8 * i := by
+  obtain ⟨b1', b2, w1, _, i1, _, _, e⟩ := handleInterrupt_taken c h hp hi
+  rw [hb1] at w1; injection w1 with w1; subst w1
+  have hc := ok_inj (e) hc; subst hc
+  obtain ⟨i, hi5, hset, hlow, hch⟩ := chain_lowest (activeInterrupts b1) (and_lt32 i1.ifl) hp1
+  exact ⟨i, hi5, hset, hlow, by show (chain (activeInterrupts b1)).1 = _; rw [hch]⟩
+
+/-- only the IF bit of the served source is cleared: with `b2` the bus after both pushes and `i` the served source,
+IF afterwards is IF(b2) minus bit `i` (if it is still set there); every other bit of IF, IE and all of memory are as
+the two pushes left them -/
+theorem only_that_bit_cleared (c c' : State) (h : WFc c) (hp : activeInterrupts c.bus ≠ 0) (hi : c.ime = .Enabled)
+    (hc : handleInterrupt c = .ok c') (b1 b2 : Bus.State)
+    (hb1 : Bus.write c.bus ((c.regs.sp + 65535) % 65536) (c.regs.ip / 256) = .ok b1)
+    (hb2 : Bus.write b1 ((c.regs.sp + 65534) % 65536) (c.regs.ip % 256) = .ok b2) (hp1 : activeInterrupts b1 ≠ 0) :
+    ∃ i, i < 5 ∧ c'.regs.ip = 0x40 + 8 * i ∧
+      c'.bus = { b2 with io := { b2.io with ifl := b2.io.ifl - (b2.io.ifl / 2^i % 2) * 2^i } } := by
+  obtain ⟨b1', b2', w1, w2, i1, i2, _, e⟩ := handleInterrupt_taken c h hp hi
+  rw [hb1] at w1; injection w1 with w1; subst w1
+  rw [hb2] at w2; injection w2 with w2; subst w2
+  have hc := ok_inj (e) hc; subst hc
+  obtain ⟨i, hi5, _, _, hch⟩ := chain_lowest (activeInterrupts b1) (and_lt32 i1.ifl) hp1
+  refine ⟨i, hi5, by show (chain (activeInterrupts b1)).1 = _; rw [hch], ?_⟩
+  show Bus.State.mk .. = _
+  simp only [hch, mask_bit _ i2.ifl i hi5]
+
+/-- a dispatch charges five machine cycles (to the cycle counter the devices are caught up from, and to the ghost total);
+anything else charges nothing -/
+theorem five_cycles (c c' : State) (h : WFc c) (hc : handleInterrupt c = .ok c') :
+    c'.regs.cycles = c.regs.cycles + (if activeInterrupts c.bus ≠ 0 ∧ c.ime = .Enabled then 5 else 0) ∧
+    c'.charged = c.charged + (if activeInterrupts c.bus ≠ 0 ∧ c.ime = .Enabled then 5 else 0) := by
+  by_cases h0 : activeInterrupts c.bus = 0
+  · have hc := ok_inj (handleInterrupt_idle c h0) hc; subst hc; simp [h0]
+  by_cases hi : c.ime = .Enabled
+  · obtain ⟨b1, b2, _, _, _, _, _, e⟩ := handleInterrupt_taken c h h0 hi
+    have hc := ok_inj (e) hc; subst hc; simp [h0, hi, dispatched]
+  · have hc := ok_inj (handleInterrupt_masked c h0 hi) hc; subst hc; simp [hi]
+
+/-- cancellation: if the high-byte push itself leaves no source pending (it landed on IE or IF), PC becomes 0x0000 and
+no IF bit is cleared — the bus is exactly what the two pushes left -/
+theorem cancellation (c c' : State) (h : WFc c) (hp : activeInterrupts c.bus ≠ 0) (hi : c.ime = .Enabled)
+    (hc : handleInterrupt c = .ok c') (b1 b2 : Bus.State)
+    (hb1 : Bus.write c.bus ((c.regs.sp + 65535) % 65536) (c.regs.ip / 256) = .ok b1)
+    (hb2 : Bus.write b1 ((c.regs.sp + 65534) % 65536) (c.regs.ip % 256) = .ok b2) (hp1 : activeInterrupts b1 = 0) :
+    c'.regs.ip = 0 ∧ c'.bus = b2 ∧ Dispatched c c' := by
+  obtain ⟨b1', b2', w1, w2, i1, i2, _, e⟩ := handleInterrupt_taken c h hp hi
+  rw [hb1] at w1; injection w1 with w1; subst w1
+  rw [hb2] at w2; injection w2 with w2; subst w2
+  have hc := ok_inj (e) hc; subst hc
+  refine ⟨by show (chain (activeInterrupts b1)).1 = 0; rw [hp1]; rfl, ?_, rfl, rfl, rfl, rfl⟩
+  show clr b2 (chain (activeInterrupts b1)).2 = b2
+  rw [hp1]; exact clr_zero b2 i2
+
+/-- SP after a dispatch is (SP − 2) mod 65536 (the u32 wrap of the register field is masked; repo d5e7cc8) -/
+theorem sp_mod (c c' : State) (h : WFc c) (hp : activeInterrupts c.bus ≠ 0) (hi : c.ime = .Enabled)
+    (hc : handleInterrupt c = .ok c') : c'.regs.sp = (c.regs.sp + 65536 - 2) % 65536 ∧ c'.regs.sp < 65536 := by
+  obtain ⟨b1, b2, _, _, _, _, _, e⟩ := handleInterrupt_taken c h hp hi
+  have hc := ok_inj (e) hc; subst hc
+  exact ⟨rfl, Nat.mod_lt _ (by omega)⟩
+
+/-- "Otherwise IF, IE, PC, SP and memory are unchanged": without (pending ∧ IME = Enabled) registers, bus, master enable
+and charged cycles are untouched -/
+theorem otherwise_unchanged (c c' : State) (hn : ¬ (activeInterrupts c.bus ≠ 0 ∧ c.ime = .Enabled))
+    (hc : handleInterrupt c = .ok c') : Untouched c c' := by
+  by_cases h0 : activeInterrupts c.bus = 0
+  · have hc := ok_inj (handleInterrupt_idle c h0) hc; subst hc; exact ⟨rfl, rfl, rfl, rfl⟩
+  · have hi : c.ime ≠ .Enabled := fun e => hn ⟨h0, e⟩
+    have hc := ok_inj (handleInterrupt_masked c h0 hi) hc; subst hc; exact ⟨rfl, rfl, rfl, rfl⟩
+
+/-! ### concrete states (the hypotheses are satisfiable; the boundary cases behave as stated) -/
+
+/-- MBC1 cartridge, 4 ROM banks, 32 KiB RAM, as the c07 stream uses -/
+def bus0 : Bus.State := Bus.create .mbc1 4 32768 (fun _ => 0)
+
+def mk (ifl ie sp ip : Nat) (ime : Ime) (run : RunState) : State :=
+  { regs := { sp := sp, ip := ip }, bus := { bus0 with io := { bus0.io with ifl := ifl, ie := ie } }, ime := ime, run := run }
+
+theorem wf_mk (ifl ie sp ip : Nat) (ime : Ime) (run : RunState) (h1 : ifl < 32) (h2 : ie < 32) (h3 : sp < 65536) (h4 : ip < 65536) :
+    WFc (mk ifl ie sp ip ime run) :=
+  ⟨⟨h1, h2, rfl⟩, BusProofs.wf_set_io (BusProofs.wf_create .mbc1 4 32768 _ (by omega)) _, h3, h4⟩
+
+/-- what the examples observe of a result -/
+def obs (r : Except Bus.Panic State) : Option (Nat × Nat × Nat × Nat × Nat × Nat) :=
+  match r with
+  | .ok c => some (c.regs.ip, c.regs.sp, c.bus.io.ifl, c.bus.io.ie, c.regs.cycles, if c.run = .Run then 0 else 1)
+  | .error _ => none
+
+/-- Timer and Joypad pending, halted, IME on, SP in WRAM: wakes, vector 0x50, only bit 2 of IF cleared, SP−2, 5 cycles -/
+example : obs (handleInterrupt (mk 0x14 0x1f 0xd000 0x1234 .Enabled .Halt)) = some (0x50, 0xcffe, 0x10, 0x1f, 5, 0) := by
+  decide +kernel
+/-- the same with IME off: only the wake-up -/
+example : obs (handleInterrupt (mk 0x14 0x1f 0xd000 0x1234 .Disabled .Halt)) = some (0x1234, 0xd000, 0x14, 0x1f, 0, 0) := by
+  decide +kernel
+/-- SP = 0x0000: the high byte 0x12 lands on IE (0xFFFF) and disables the VBlank source: cancellation, PC = 0, IF kept;
+SP wraps to 0xFFFE -/
+example : obs (handleInterrupt (mk 0x01 0x01 0x0000 0x1234 .Enabled .Run)) = some (0x0000, 0xfffe, 0x01, 0x12, 5, 0) := by
+  decide +kernel
+/-- SP = 0xFF11: the low byte 0x08 lands on IF (0xFF0F) *after* the sample: Timer is served (vector 0x50), and the
+clear applies to the IF value the push wrote (0x08: bit 2 no longer set, bit 3 kept) -/
+example : obs (handleInterrupt (mk 0x04 0x04 0xff11 0x1208 .Enabled .Run)) = some (0x50, 0xff0f, 0x08, 0x04, 5, 0) := by
+  decide +kernel
+/-- SP = 0xFF10: the high byte lands on IF and withdraws the request: cancellation -/
+example : obs (handleInterrupt (mk 0x04 0x04 0xff10 0x0034 .Enabled .Run)) = some (0x0000, 0xff0e, 0x00, 0x04, 5, 0) := by
+  decide +kernel
+example : WFc (mk 0x01 0x01 0x0000 0x1234 .Enabled .Run) := wf_mk _ _ _ _ _ _ (by omega) (by omega) (by omega) (by omega)
+example : activeInterrupts (mk 0x01 0x01 0x0000 0x1234 .Enabled .Run).bus ≠ 0 := by decide +kernel
 
 end GbVerif.C07
